@@ -1,0 +1,39 @@
+//go:build verif
+
+// Contracts for package operation, read by /verif/govc. Comments only.
+package operation
+
+// The operation carried by a log entry, as a function of the entry's payload bytes.
+//@ spec func opOK(e Iface) Bool = e != nil && jOK(payloadOf(e))
+//@ spec func opHasKey(e Iface) Bool = jHasKey(payloadOf(e))
+//@ spec func opKey(e Iface) Str = jKey(payloadOf(e))
+//@ spec func opKind(e Iface) Str = jKind(payloadOf(e))
+//@ spec func opValue(e Iface) Slice<Int> = jValue(payloadOf(e))
+//@ spec func opNDocs(e Iface) Int = jNDocs(payloadOf(e))
+//@ spec func opDocKey(e Iface, i Int) Str = jDocKey(payloadOf(e), i)
+//@ spec func opDocVal(e Iface, i Int) Slice<Int> = jDocVal(payloadOf(e), i)
+
+// Values of the Operation / OpDoc interfaces are always *operation / *opDoc (the only implementations).
+//@ devirt berty.tech/go-orbit-db/stores/operation.Operation => operation.operation
+//@ devirt berty.tech/go-orbit-db/stores/operation.OpDoc => operation.opDoc
+
+//@ func ParseOperation
+//@   props C06 C07
+//@   requires e != nil ==> ref(e) != 0
+//@   ensures (result1 == nil) == opOK(e)
+//@   ensures result1 == nil ==> typeis(result, "*operation.operation") && ref(result) != 0
+//@   ensures result1 == nil ==> (ptr(result, "operation.operation").Key != nil) == opHasKey(e) && (opHasKey(e) ==> deref(ptr(result, "operation.operation").Key) == opKey(e)) && ptr(result, "operation.operation").Op == opKind(e) && ptr(result, "operation.operation").Value == opValue(e)
+//@   ensures result1 == nil ==> len(ptr(result, "operation.operation").Docs) == opNDocs(e) && (forall i Int :: 0 <= i && i < opNDocs(e) ==> ptr(result, "operation.operation").Docs[i] != nil && ptr(ptr(result, "operation.operation").Docs[i], "operation.opDoc").Key == opDocKey(e, i) && ptr(ptr(result, "operation.operation").Docs[i], "operation.opDoc").Value == opDocVal(e, i))
+//@   modifies "F:operation.operation.Key", "F:operation.operation.Op", "F:operation.operation.Value", "F:operation.operation.Docs", "F:operation.opDoc.Key", "F:operation.opDoc.Value", "C:Str"
+//@   modifies "C:Slice_Int", "C:Slice_V_cid_Cid", "F:basestore.storeSnapshot.ID", "F:basestore.storeSnapshot.Heads", "F:basestore.storeSnapshot.Size", "F:basestore.storeSnapshot.Type", "C:Slice_Str"
+//@   modifies "F:operation.operation.Entry"
+
+// GetDocs returns the batch members in order, each the *opDoc stored in the operation.
+//@ func (*operation).GetDocs
+//@   props C07
+//@   requires forall j Int :: 0 <= j && j < len(o.Docs) ==> o.Docs[j] != nil
+//@   loop 1 invariant len(ret) == len(o.Docs)
+//@   loop 1 invariant forall j Int :: 0 <= j && j < i ==> typeis(ret[j], "*operation.opDoc") && ref(ret[j]) == o.Docs[j]
+//@   ensures len(result) == len(o.Docs)
+//@   ensures forall j Int :: 0 <= j && j < len(result) ==> typeis(result[j], "*operation.opDoc") && ref(result[j]) == o.Docs[j]
+//@   modifies nothing
